@@ -454,6 +454,9 @@ class Model:
         if must_fail:
             return Plan(err=err)
         name = b.get("name")
+        if name is not None and execution_arn(arn, name) in self.executions:
+            # a name may be used for one execution of a state machine only
+            return Plan(err={"ExecutionAlreadyExists"})
 
         def ok(resp):
             if not isinstance(resp, dict) or sorted(resp) != ["executionArn", "startDate"]:
